@@ -482,3 +482,175 @@ Example C12_ex_bounds : kde_bounds_ok (BBoth 0 10) (XFin 1) (XFin 9) (99 # 100) 
                         kde_bounds_ok (BBoth 0 10) (XFin (-1)) (XFin 9) (99 # 100) = false /\
                         kde_bounds_ok BNone (XFin 1) (XFin 9) (97 # 100) = false.
 Proof. vm_compute. repeat split; reflexivity. Qed.
+
+(* ====================================================================== *)
+(* A9. the SEARCH of KDE.Bounds() in exact arithmetic (Model/KdeBounds.v)     *)
+(* ====================================================================== *)
+From MM Require Import Model.KdeBounds Proofs.KdeBounds Proofs.KdeSeriesStop.
+(* bounds_search F b fuel xs (Model/KdeBounds.v) is kde.go:269-325 over Q with the CDF F: start at
+   (min, max) of the data (+-1 if equal), double the width until F(lowX) <= 0.005 and
+   F(highX) >= 0.995, bisect F - 0.005 and F - 0.995 to 0.001 (alg.go:45-73, every branch incl.
+   the panic and the `mid == low` exit), widen by 10%, clip to the boundaries; BrFuel when one of
+   the four loops exceeds the fuel.
+   (1) bisect, for ANY f compatible with ==: a returned point is within the tolerance and the
+   flag is true (the `mid == high || mid == low` exit means low == high in Q, which the bracket
+   invariant Sign(f low) <> Sign(f high) excludes); a panic means equal signs at the ends.
+   (2) for ANY non-decreasing F that is 0 at BoundaryMin and 1 at BoundaryMax (where they
+   exist), every fuel and every sample: bisect never panics, and a returned interval passes the
+   acceptance test kde_bounds_ok with mass F hi - F lo (ordered, inside the boundaries,
+   >= 98% - in fact F lo <= 0.006 and F hi >= 0.994).
+   A theorem about the exact search only: the float search (rounded CDF values, 0.1 is not 1/10,
+   termination through mid == low) is not tied to it; the check applies kde_bounds_ok to the
+   implementation's result. *)
+Theorem C12_bounds_search_sound :
+  (forall (f : Q -> Q) (tol low high : Q) (fuel : nat), (forall s t : Q, s == t -> f s == f t) ->
+     match bisect f low high tol fuel with
+     | BisRet x found => (- tol <= f x /\ f x <= tol) /\ found = true
+     | BisPanic => qsign (f low) = qsign (f high)
+     | BisFuel => True
+     end) /\
+  (forall F : Q -> Q, (forall a b : Q, a <= b -> F a <= F b) ->
+   forall (b : bconf) (fuel : nat) (xs : list Q),
+     match b with
+     | BNone => True
+     | BLower m => F m == 0
+     | BUpper M => F M == 1
+     | BBoth m M => F m == 0 /\ F M == 1
+     | BBad => False
+     end ->
+     bounds_search F b fuel xs <> BrPanic /\
+     forall lo hi : Q, bounds_search F b fuel xs = BrOk lo hi ->
+       kde_bounds_ok b (XFin lo) (XFin hi) (F hi - F lo) = true /\
+       F lo <= 6 # 1000 /\ 994 # 1000 <= F hi).
+Proof. exact Proofs.KdeBounds.G_bounds_search_sound. Qed.
+Print Assumptions C12_bounds_search_sound.
+
+(* the search on the model's own KDE.CDF (kde_bounds_search k = bounds_search (kde_cdf k) ..):
+   Epanechnikov kernel, every boundary setting; delta kernel with the data inside the boundaries
+   (bounds_ok_delta, Proofs/KdeBounds.v), where the interval is accepted both with the CDF
+   difference (mass of (lo, hi]) and with the mass of the closed interval [lo, hi] that
+   Check/C12.v uses.  For a step function the exact bisection usually never meets the
+   tolerance: the fuel runs out (C12_ex_bounds_search), where the float code ends on mid == low *)
+Theorem C12_bounds_search_kde :
+  (forall k : kde, kde_ok k -> k_kernel k = KEpan -> bounds_ok k -> forall fuel : nat,
+     kde_bounds_search k fuel <> BrPanic /\
+     forall lo hi : Q, kde_bounds_search k fuel = BrOk lo hi ->
+       exists clo chi : Q, kde_cdf k lo = Some (XFin clo) /\ kde_cdf k hi = Some (XFin chi) /\
+         kde_bounds_ok (k_b k) (XFin lo) (XFin hi) (chi - clo) = true) /\
+  (forall k : kde, kde_ok_delta k -> k_kernel k = KDelta -> bounds_ok_delta k -> forall fuel : nat,
+     kde_bounds_search k fuel <> BrPanic /\
+     forall lo hi : Q, kde_bounds_search k fuel = BrOk lo hi ->
+       (exists clo chi : Q, kde_cdf k lo = Some (XFin clo) /\ kde_cdf k hi = Some (XFin chi) /\
+          kde_bounds_ok (k_b k) (XFin lo) (XFin hi) (chi - clo) = true) /\
+       kde_bounds_ok (k_b k) (XFin lo) (XFin hi) (delta_mass_in (k_xs k) (k_ws k) lo hi) = true).
+Proof. exact Proofs.KdeBounds.G_bounds_search_kde. Qed.
+Print Assumptions C12_bounds_search_kde.
+
+(* ====================================================================== *)
+(* A10. two boundaries with data OUTSIDE them (outside the property's quantifier) *)
+(* ====================================================================== *)
+(* `series` (alg.go:107-114) in exact arithmetic returns the sum of the terms before the FIRST
+   zero term, whatever follows it.  With a data point outside [BoundaryMin, BoundaryMax] a zero
+   term can be followed by non-zero ones: sample {9/10, 2}, h = 1/4, support [0, 1), x = 1/10 -
+   term 0 of both series is 0, term 1 is not (the images 2 -+ 1/10 reach the data point 2), the
+   model returns PDF = CDF = 0 while the image sums are 63/25 and 71/250.  So the hypothesis
+   pairs_within m M of C12_both_is_fold cannot be dropped. *)
+Theorem C12_both_data_outside_refuted :
+  (forall (t : nat -> Q) (fuel : nat),
+     (forall s : Q, series_q t 0 fuel 0 = Some s ->
+        exists K : nat, (K < fuel)%nat /\ t K == 0 /\ (forall i : nat, (i < K)%nat -> ~ t i == 0) /\
+                        s == nat_sum t K) /\
+     (series_q t 0 fuel 0 = None <-> (forall i : nat, (i < fuel)%nat -> ~ t i == 0))) /\
+  (exists (k : kde) (m M x : Q) (N : nat) (p c : Q),
+    kde_ok k /\ k_kernel k = KEpan /\ k_b k = BBoth m M /\ m < M /\ ~ pairs_within m M (kde_ps k) /\
+    m <= x /\ x < M /\ (k_fuel k <= N)%nat /\
+    kde_pdf k x = Some (XFin p) /\ kde_cdf k x = Some (XFin c) /\
+    ~ p == fold_pdf (kde_f k) m M N x /\ ~ c == fold_cdf (kde_F k) m M N x /\
+    pdf_upper (mix (epan_pdf (k_h k)) (k_xs k) (k_ws k)) m M x 0 == 0 /\
+    ~ pdf_upper (mix (epan_pdf (k_h k)) (k_xs k) (k_ws k)) m M x 1 == 0 /\
+    cdf_upper (mix (epan_cdf (k_h k)) (k_xs k) (k_ws k)) m M x 0 == 0 /\
+    ~ cdf_upper (mix (epan_cdf (k_h k)) (k_xs k) (k_ws k)) m M x 1 == 0).
+Proof. exact Proofs.KdeSeriesStop.G_series_stop_data_outside. Qed.
+Print Assumptions C12_both_data_outside_refuted.
+
+(* ex_bk kn b (Proofs/KdeBounds.v): sample {0,1,2}, h = 1, kernel kn, boundary setting b;
+   ex_bk_w: delta kernel, weights 5:990:5 (the CDF jumps onto 0.005 and 0.995 exactly).
+   Hypotheses are satisfiable; the search returns [-1.2125, 3.2125] without boundaries (the float
+   code returns the same two numbers), [-1/2, 3] with both ends clipped, and each is accepted;
+   on the unweighted delta kernel the exact bisection never meets the tolerance (the float code
+   returns [-0.2, 2.2] through mid == low) *)
+Example C12_ex_bounds_search :
+  kde_ok (ex_bk KEpan BNone) /\ bounds_ok (ex_bk KEpan (BBoth (-1 # 2) 3)) /\
+  kde_ok_delta ex_bk_w /\ bounds_ok_delta ex_bk_w /\
+  kde_bounds_search (ex_bk KEpan BNone) 20 = BrOk (-397312 # 327680) (1052672 # 327680) /\
+  search_accepted (ex_bk KEpan BNone) 20 = true /\
+  kde_bounds_search (ex_bk KEpan (BBoth (-1 # 2) 3)) 20 = BrOk (-1 # 2) 3 /\
+  search_accepted (ex_bk KEpan (BBoth (-1 # 2) 3)) 20 = true /\
+  search_accepted (ex_bk KEpan (BLower (-1 # 2))) 20 = true /\
+  kde_bounds_search (ex_bk KEpan BNone) 5 = BrFuel /\
+  kde_bounds_search (ex_bk KDelta BNone) 60 = BrFuel /\
+  kde_bounds_search ex_bk_w 20 = BrOk (-1 # 10) (11 # 10) /\ search_accepted ex_bk_w 20 = true.
+Proof.
+  split; [repeat split; try discriminate; cbn; lra|].
+  split; [split; [lra | repeat constructor; cbn; lra]|].
+  split; [repeat split; try discriminate; repeat constructor; cbn; lra|].
+  split; [exact I|].
+  vm_compute. repeat split; reflexivity.
+Qed.
+
+(* ====================================================================== *)
+(* A11. the exact search of KDE.Bounds() terminates (Epanechnikov, <= 1 boundary) *)
+(* ====================================================================== *)
+From MM Require Import Proofs.KdeBoundsTerm.
+(* (1) bisect on an L-Lipschitz f with f low <= tol and f high >= -tol never panics and returns a
+   point within n halvings whenever (high - low) L <= 2 tol 2^n (bracket invariant
+   f low < -tol, tol < f high forces high - low > 2 tol / L); (2) for an L-Lipschitz F that is
+   <= 0.005 left of A and >= 0.995 right of B each bracket expansion ends within n steps once n
+   initial widths reach A resp. B, and the whole search returns an interval for EVERY fuel from
+   some fuel0 on, every sample and boundary setting (existential fuel0: the bisection bound is
+   stated in (1)); (3) the Epanechnikov distribution function is Lipschitz with constant
+   3/(4h); (4) the model's Epanechnikov KDE.CDF with no boundary or one boundary (data inside
+   it: bounds_ok_half, Proofs/KdeBoundsTerm.v) is Lipschitz with 3/(2h) (3/(4h) without
+   boundary), so its Bounds() search returns, from some fuel on, an interval that the acceptance
+   test accepts.  Two boundaries are not covered; for the delta kernel the exact search does
+   not terminate in general (C12_ex_bounds_search). *)
+Theorem C12_bounds_search_terminates :
+  (forall (f : Q -> Q) (L tol : Q), 0 < L -> 0 < tol ->
+     (forall x y : Q, x <= y -> f y - f x <= L * (y - x)) ->
+     forall (low high : Q) (n fuel : nat), low <= high -> f low <= tol -> - tol <= f high -> (n < fuel)%nat ->
+       (high - low) * L <= 2 * tol * qpow 2 n ->
+       exists x : Q, bisect f low high tol fuel = BisRet x true) /\
+  (forall (F : Q -> Q) (L A B : Q), 0 < L ->
+     (forall x y : Q, x <= y -> F y - F x <= L * (y - x)) ->
+     (forall x : Q, x <= A -> F x <= lowY) -> (forall x : Q, B <= x -> highY <= F x) ->
+     (forall (fuel n : nat) (lowX highX : Q), (n < fuel)%nat -> lowX < highX ->
+        lowX - Qofnat n * (highX - lowX) <= A ->
+        exists r : Q, expand_low F fuel lowX highX = Some r /\ r <= lowX /\ F r <= lowY) /\
+     (forall (fuel n : nat) (lowX highX : Q), (n < fuel)%nat -> lowX < highX ->
+        B <= highX + Qofnat n * (highX - lowX) ->
+        exists r : Q, expand_high F fuel lowX highX = Some r /\ highX <= r /\ highY <= F r) /\
+     (forall (b : bconf) (xs : list Q), b <> BBad -> xs <> [] ->
+        exists fuel0 : nat, forall fuel : nat, (fuel0 <= fuel)%nat ->
+          exists lo hi : Q, bounds_search F b fuel xs = BrOk lo hi)) /\
+  (forall h s t : Q, 0 < h -> s <= t -> epan_cdf h t - epan_cdf h s <= (3 # 4) / h * (t - s)) /\
+  (forall k : kde, kde_ok k -> k_kernel k = KEpan -> bounds_ok_half k ->
+     (forall x y : Q, x <= y -> kde_cdf_q k y - kde_cdf_q k x <= 2 * ((3 # 4) / k_h k) * (y - x)) /\
+     exists fuel0 : nat, forall fuel : nat, (fuel0 <= fuel)%nat ->
+       exists lo hi clo chi : Q, kde_bounds_search k fuel = BrOk lo hi /\
+         kde_cdf k lo = Some (XFin clo) /\ kde_cdf k hi = Some (XFin chi) /\
+         kde_bounds_ok (k_b k) (XFin lo) (XFin hi) (chi - clo) = true).
+Proof. exact Proofs.KdeBoundsTerm.G_bounds_search_terminates. Qed.
+Print Assumptions C12_bounds_search_terminates.
+
+(* the hypotheses are satisfiable; on sample {0,1,2}, h = 1 fuel 9 suffices, fuel 5 does not *)
+Example C12_ex_bounds_term :
+  bounds_ok_half (ex_bk KEpan BNone) /\ bounds_ok_half (ex_bk KEpan (BLower (-1 # 2))) /\
+  bounds_ok_half (ex_bk KEpan (BUpper 3)) /\
+  search_accepted (ex_bk KEpan BNone) 9 = true /\ kde_bounds_search (ex_bk KEpan BNone) 5 = BrFuel /\
+  search_accepted (ex_bk KEpan (BLower (-1 # 2))) 20 = true /\
+  search_accepted (ex_bk KEpan (BUpper 3)) 20 = true.
+Proof.
+  split; [exact I|]. split; [exists 2; repeat constructor; cbn; lra|].
+  split; [exists 0; repeat constructor; cbn; lra|].
+  vm_compute. repeat split; reflexivity.
+Qed.
